@@ -3,6 +3,8 @@
 package main
 
 import (
+	"encoding/json"
+
 	limited_rationality "github.com/Azbesciak/RealDecisionMaker/lib/logic/limited-rationality"
 	"github.com/Azbesciak/RealDecisionMaker/lib/logic/limited-rationality/satisfaction"
 	"github.com/Azbesciak/RealDecisionMaker/lib/model"
@@ -112,6 +114,46 @@ func init() {
 			o.count("distinct-acceptance-levels=" + itoa(heurMinInt(len(atLevel), 4)))
 			m.Stage = "check-c13"
 			o.Spec(m, L(A("check-c13"), altsSX(order), critsSX(d.Criteria), heurLevelsSX(levels), altsSX(d.AllAlternatives()), satEntriesSX(rk)))
+			// the request's configuration (current choice, ordering, seed) must still decide after biases
+			if r.chance(0.3) && len(d.Criteria) >= 2 {
+				q2 := cloneJ(q.Body)
+				var bl []interface{}
+				for i, nb := 0, r.rangeInt(1, 2); i < nb; i++ {
+					name := []string{"criteriaOmission", "criteriaOmission", "preferenceReversal", "fatigue", "criteriaConcealment"}[r.Intn(5)]
+					pr := biasPropsJSON(r, name, q.Problem)
+					if name == "criteriaOmission" {
+						pr["max"], pr["ratio"] = len(d.Criteria)-1-i, 0.5
+						delete(pr, "min")
+					}
+					if name == "criteriaConcealment" {
+						pr["newCriterionScaling"] = 1
+					}
+					bl = append(bl, J{"name": name, "props": pr})
+				}
+				q2["biases"] = bl
+				js2, _ := json.Marshal(q2)
+				var dm2 model.DecisionMaker
+				if json.Unmarshal(js2, &dm2) == nil {
+					tr := tracedDecide(&dm2)
+					if tr.Err == "" && tr.Eval != nil && len(tr.Eval.Live.Criteria) >= 1 {
+						dF := tr.Eval.Live
+						if pF, ok := dF.MethodParameters.(satisfaction.SatisfactionParameters); ok {
+							lvF, msgLF, capF := heurGoLevels(decreasingSatisfactionLevels, pF.Function, pF.Params, dF)
+							var orderF []model.AlternativeWithCriteria
+							reqParams := params
+							msgF := recoverErr(func() {
+								cur, rest := limited_rationality.GetAlternativesSearchOrder(dF, &reqParams, utils.RandomBasedSeedValueGenerator(reqParams.RandomSeed))
+								orderF = append([]model.AlternativeWithCriteria{cur}, rest...)
+							})
+							if msgLF == "" && !capF && msgF == "" {
+								m2 := Meta{Case: c, Stage: "check-c13-after-biases", Input: J{"request": q2}, Key: string(js2), GoOut: heurRankingJSON(&tr.Choice.Result)}
+								o.Spec(m2, L(A("check-c13"), altsSX(orderF), critsSX(dF.Criteria), heurLevelsSX(lvF), altsSX(dF.AllAlternatives()), satEntriesSX(&tr.Choice.Result)))
+								o.count("after-biases")
+							}
+						}
+					}
+				}
+			}
 		}
 	}
 }
